@@ -837,3 +837,47 @@ theorem linkedListB_cacheOnly {σ σ' : Store} (h : CacheOnly σ σ') : ∀ (l :
 end
 
 end Pfst.Links
+
+/-! ## `_touchall(children=True)` empties the cache of every node of the subtree -/
+namespace Pfst.Links
+
+mutual
+theorem touchTree_cache_stays : ∀ (t : Ast) (σ : Store) (g : Nat), (σ.fst g).cache = [] →
+    ((touchTree σ t).fst g).cache = []
+  | .mk a _ _ kids, σ, g, h => by
+    simp only [touchTree]
+    exact touchTreeList_cache_stays kids _ g (touchAst_cache_stays σ a g h)
+theorem touchTreeList_cache_stays : ∀ (l : List Ast) (σ : Store) (g : Nat), (σ.fst g).cache = [] →
+    ((touchTreeList σ l).fst g).cache = []
+  | [], _, _, h => h
+  | k :: rest, σ, g, h => by
+    simp only [touchTreeList]
+    exact touchTreeList_cache_stays rest _ g (touchTree_cache_stays k σ g h)
+end
+
+mutual
+theorem touchTree_clears : ∀ (t : Ast) (σ : Store), ∀ x ∈ ids t, ∀ g, σ.astF x = some g →
+    ((touchTree σ t).fst g).cache = []
+  | .mk a _ _ kids, σ, x, hx, g, hg => by
+    simp only [ids, List.mem_cons] at hx
+    simp only [touchTree]
+    cases hx with
+    | inl e =>
+      subst e
+      apply touchTreeList_cache_stays
+      simp only [touchAst, hg]
+      exact touch_cache_self σ g
+    | inr hk =>
+      exact touchTreeList_clears kids _ x hk g (by rw [(touchAst_cacheOnly σ a).1]; exact hg)
+theorem touchTreeList_clears : ∀ (l : List Ast) (σ : Store), ∀ x ∈ idsList l, ∀ g, σ.astF x = some g →
+    ((touchTreeList σ l).fst g).cache = []
+  | [], _, x, hx, _, _ => by simp [idsList] at hx
+  | k :: rest, σ, x, hx, g, hg => by
+    simp only [idsList, List.mem_append] at hx
+    simp only [touchTreeList]
+    cases hx with
+    | inl h => exact touchTreeList_cache_stays rest _ g (touchTree_clears k σ x h g hg)
+    | inr h => exact touchTreeList_clears rest _ x h g (by rw [(touchTree_cacheOnly k σ).1]; exact hg)
+end
+
+end Pfst.Links
